@@ -20,7 +20,7 @@ PROPS['C11'] = dict(
 _root_modelled = 'math/big arithmetic as Z (Div/DivMod only with positive divisor and non-negative dividend); int64/big.Rat conversions as identities on values'
 for _p, _k, _name in (('C01', 'KSqrt', 'square'), ('C02', 'KCube', 'cube')):
     PROPS[_p] = dict(
-        theorem='%s_exact, %s_zero, %s_panic_iff, %s_value_only, %s_checker_sound (Properties/%s.v)' % (_p, _p, _p, _p, _p, _p),
+        theorem='%s_exact, %s_zero, %s_panic_iff, %s_value_only, %s_checker_sound, %s_last_prefix_suffices, %s_checker_last_sound (Properties/%s.v)' % (_p, _p, _p, _p, _p, _p, _p, _p),
         functional=True,
         level_text='Theorem for every positive radicand num/den and every depth n (no bound on magnitude or digit count): the model of the '
                    '%s-root constructors (normalisation loops, long division into groups, digit loop with the incr/incr2 recurrences) returns an '
